@@ -367,3 +367,43 @@ theorem run_spec (hv : Valid cfg) {sched apply : Core → Option Err} (hs : ∀ 
 
 end
 end Acn.EventCore
+
+namespace Acn.EventCore
+
+theorem le_foldl_max : ∀ (l : List Int) (b a : Int), (a ∈ l ∨ a ≤ b) → a ≤ l.foldl max b := by
+  intro l
+  induction l with
+  | nil =>
+    intro b a h
+    rcases h with h | h
+    · simp at h
+    · simpa using h
+  | cons x xs ih =>
+    intro b a h
+    simp only [List.foldl_cons]
+    apply ih
+    rcases h with h | h
+    · rcases List.mem_cons.1 h with rfl | h
+      · exact Or.inr (le_max_right _ _)
+      · exact Or.inl h
+    · exact Or.inr (le_trans h (le_max_left _ _))
+
+/-- the fuel the drivers use is enough for the whole run -/
+theorem horizon_le_fuelFor (cfg : Cfg) : horizon cfg ≤ fuelFor cfg := by
+  unfold horizon fuelFor
+  simp only
+  have key : maxTs cfg ≤ ((cfg.sessions.map fun x => max x.arrival x.departure) ++
+      cfg.recomputes.map (·.1)).foldl max 0 := by
+    rcases foldr_max_mem (tsList cfg) (-1) with h | h
+    · unfold maxTs; rw [h]
+      exact le_trans (by decide) (le_foldl_max _ 0 0 (Or.inr le_rfl))
+    · unfold maxTs
+      rcases List.mem_append.1 h with h' | h'
+      · obtain ⟨x, hx, hxe⟩ := List.mem_map.1 h'
+        rw [← hxe]
+        exact le_trans (le_max_right x.arrival x.departure)
+          (le_foldl_max _ 0 _ (Or.inl (List.mem_append_left _ (List.mem_map.2 ⟨x, hx, rfl⟩))))
+      · exact le_foldl_max _ 0 _ (Or.inl (List.mem_append_right _ h'))
+  omega
+
+end Acn.EventCore
